@@ -1,5 +1,6 @@
 from __future__ import print_function
 
+import re
 import sys
 from bisect import insort
 from ast import iter_fields, Store, Load, NodeVisitor, parse, Tuple, List, AST
@@ -347,6 +348,18 @@ def marked(name):
     return SOURCE_MARK in name
 
 
+def split_lines(source):
+    # type: (str) -> list[str]
+    """Lines as the python parser counts them
+
+    str.splitlines() also breaks at form feeds, file/group separators and
+    unicode line separators, which are ordinary characters for the parser."""
+    lines = re.split(r'\r\n|\r|\n', source)
+    if len(lines) > 1 and not lines[-1]:
+        lines.pop()
+    return lines
+
+
 class Source(object):
     def __init__(self, source, filename=None, position=None):
         # type: (str, str | None, tuple[int, int] | None) -> None
@@ -354,7 +367,7 @@ class Source(object):
         self.filename = filename or '<string>'
         if position:
             ln, col = position
-            lines = source.splitlines() or ['']
+            lines = split_lines(source)
             if ln > len(lines):
                 lines.append('')
             line = lines[ln-1]
@@ -381,7 +394,7 @@ class Source(object):
     @cached_property
     def lines(self):
         # type: () -> list[str]
-        return self.source.splitlines() or ['']
+        return split_lines(self.source)
 
 
 def dump_flows(scope, fd=None):
